@@ -3,6 +3,7 @@ package main
 // C01 (point lookup), C02 (voxel geometry), C09 (hierarchy relations).
 
 import (
+	"fmt"
 	"math"
 
 	"github.com/trajectoryjp/spatial_id_go/v4/common/enum"
@@ -273,9 +274,14 @@ func evFace(t *Tracer, w Win, id ID, dir int64) {
 // reference value.  The window is anchored at the coarse voxel itself, so the
 // coarse ID projects to <<0,0,0,0,0>>.
 func evHier(t *Tracer, r Rng) {
-	lon := -180 + 360*r.Float64()
-	lat := -latLimit + 2*latLimit*r.Float64()
-	alt := (r.Float64()*2 - 1) * math.Ldexp(1, int(r.In(0, 25)))
+	lon, lat, alt, h1, v1, h2, v2 := r.hierCase()
+	evHierAt(t, lon, lat, alt, h1, v1, h2, v2)
+}
+
+func (r Rng) hierCase() (lon, lat, alt float64, h1, v1, h2, v2 int64) {
+	lon = -180 + 360*r.Float64()
+	lat = -latLimit + 2*latLimit*r.Float64()
+	alt = (r.Float64()*2 - 1) * math.Ldexp(1, int(r.In(0, 25)))
 	switch r.Intn(8) {
 	case 0:
 		alt = -alt * 1e-6
@@ -284,8 +290,12 @@ func evHier(t *Tracer, r Rng) {
 	case 2:
 		lat = float64(r.Pick(-1, 1)) * (latLimit - r.Float64()*1e-6)
 	}
-	h2, v2 := r.In(0, 35), r.In(0, 35)
-	h1, v1 := r.In(h2, minI(35, h2+20)), r.In(v2, minI(35, v2+20))
+	h2, v2 = r.In(0, 35), r.In(0, 35)
+	h1, v1 = r.In(h2, minI(35, h2+20)), r.In(v2, minI(35, v2+20))
+	return
+}
+
+func evHierAt(t *Tracer, lon, lat, alt float64, h1, v1, h2, v2 int64) {
 	pt, err := object.NewPoint(lon, lat, alt)
 	if err != nil {
 		return
@@ -313,7 +323,7 @@ func evHier(t *Tracer, r Rng) {
 	if c, ok := ParseExt(firstOr(coarse)); ok && o == "ok" {
 		w = Win{H0: c.H, X0: c.X, Y0: c.Y, V0: c.V, F0: c.F}
 	}
-	e := w.ev("Hier", map[string]any{"dh": h1 - h2, "dv": v1 - v2})
+	e := w.ev("Hier", map[string]any{"dh": h1 - h2, "dv": v1 - v2, "pt": hexTriple(lon, lat, alt), "h2": h2, "v2": v2})
 	e.O = o
 	e.Real = map[string]any{"pt": hexTriple(lon, lat, alt), "fine": fine, "coarse": coarse, "h1": h1, "v1": v1, "h2": h2, "v2": v2}
 	e.R = map[string]any{"fine": []any{}, "coarse": []any{}, "zoomed": []any{}, "ov": []bool{ov, ov2}}
@@ -466,6 +476,16 @@ func init() {
 	})
 	reg("PointsSp", func(t *Tracer, w Win, a map[string]any) {
 		evPointsSp(t, w, decPts(a["pts"]), decInt(a["z"]))
+	})
+	reg("Hier", func(t *Tracer, w Win, a map[string]any) {
+		var bl, bt, ba uint64
+		s, _ := a["pt"].(string)
+		if n, _ := fmt.Sscanf(s, "%016x/%016x/%016x", &bl, &bt, &ba); n != 3 {
+			return
+		}
+		h2, v2 := decInt(a["h2"]), decInt(a["v2"])
+		evHierAt(t, math.Float64frombits(bl), math.Float64frombits(bt), math.Float64frombits(ba),
+			h2+decInt(a["dh"]), v2+decInt(a["dv"]), h2, v2)
 	})
 	reg("VertexExt", func(t *Tracer, w Win, a map[string]any) { evVertex(t, w, decID(a["id"]), false) })
 	reg("VertexSp", func(t *Tracer, w Win, a map[string]any) { evVertex(t, w, decID(a["id"]), true) })
